@@ -210,6 +210,18 @@ def gen_C09(tier, rng):
         key = rng.rbytes(mx)
         for p in _exhaustive(rng, B, 4 if quick else 5):
             yield (f"mac.{v} {mx} {hx(key)} {p}", f"blake2mac.{v}.exhaustive")
+        # re-keying transitions between every pair of key classes (empty / 1 byte / half / full), before and after a
+        # result, followed by Digest::reset (which must re-key with the LAST key): seeded change C09-7 special-cased the
+        # empty key in reset_with_key
+        kcls = [b"", rng.rbytes(1), rng.rbytes(mx // 2), rng.rbytes(mx)]
+        msg = hx(rng.rbytes(B + 3))
+        for k0 in kcls:
+            for k1 in kcls:
+                for pre in ("", f"i{msg};", f"i{msg};R;"):
+                    for post in (f"i{msg};R", f"r;i{msg};R", "R", f"i{msg};R;r;i{msg};R"):
+                        yield (f"mac.{v} {mx} {hx(k0)} {pre}k{hx(k1)};{post}", f"blake2mac.{v}.rekey-pairs")
+                yield (f"dig.obj {v}_{mx} k{hx(k0)};i{msg};k{hx(k1)};i{msg};R", f"digobj.{v}.rekey-pairs")
+                yield (f"dig.obj {v}_{mx} k{hx(k0)};k{hx(k1)};r;i{msg};R", f"digobj.{v}.rekey-pairs")
         # the shortest witnesses of finding (d) (fixed by /repo c8ec1e5)
         yield (f"mac.{v} {mx} {hx(key)} r;R", f"blake2mac.{v}.reset-witness")
         yield (f"mac.{v} {mx} {hx(key)} R;r;R", f"blake2mac.{v}.reset-witness")
